@@ -90,6 +90,7 @@ def _len(x):
         _raise('TypeError', str(e))
 
 
+KENDALL_NONDEGENERATE = [False]  # vine mode: kendalltau arguments are assumed non-constant (stated in evidence)
 CONCRETE_ARGEXT = [False]       # vine mode: extrema / ranges over symbolic values are resolved by case split
 
 
@@ -1682,6 +1683,12 @@ def st_kendalltau(u, v, **kw):
     cu = ir.eq(ir.uf('n_unique', [wu], 'I'), 1)
     cv = ir.eq(ir.uf('n_unique', [wv], 'I'), 1)
     c.assume(ir.eq(nan, ir.or_(cu, cv)))
+    if KENDALL_NONDEGENERATE[0]:
+        # stated assumption of the vine checks: no (conditional) pseudo-observation vector is constant
+        c.assume(ir.not_(nan))
+        USED['assumption: non-degenerate pseudo-observations'] = (
+            'vine checks: every vector handed to kendalltau (a column of u_matrix or a row of an edge\'s U) has at least two '
+            'distinct values, so no Kendall tau is NaN (tables in general position; a NaN tau makes the tree builders fail)')
     c.event('libcall', ('kendalltau', [wu, wv]), State.where)
     return TupleLike([Sym(tau), Sym(ir.uf('kendalltau.p', [wu, wv]))], statistic=Sym(tau),
                      correlation=Sym(tau), pvalue=Sym(ir.uf('kendalltau.p', [wu, wv])))
@@ -2987,25 +2994,30 @@ def _ca_ge_all(t, others, strict_before=()):
 
 
 def _ca_argsort(arr):
-    """argsort of a 1-d small array. Concrete keys: numpy order (stable for equal keys). Symbolic keys: a case split
-    over the comparisons; equal keys may come out in either order (numpy's default sort is not stable)."""
+    """argsort of a 1-d small array (ascending). numpy's default sort is NOT stable (SIMD / introsort): equal keys may come
+    out in either order - but it is a deterministic function of the array. Ties are therefore decided by an uninterpreted
+    boolean of (the whole key vector, the two positions): both orders are explored, and the same array sorts the same way
+    every time it is sorted."""
     items = list(arr.data)
     if any(isinstance(x, list) for x in items):
         raise Unsupported('argsort of a 2-d array')
     c = State.ctx
+    ts = [to_term(x) for x in items]
+    vec = ir.uf('vec', ts, 'U')
     order = []
-    for i, x in enumerate(items):
+    for i, tx in enumerate(ts):
         pos = len(order)
         for j, k in enumerate(order):
-            y = items[k]
-            if isinstance(x, Sym) or isinstance(y, Sym):
-                tx, ty = to_term(x), to_term(y)
-                if tx is ty:
-                    continue
-                lt = c.branch(ir.le(tx, ty)) if c.feasible(ir.lt(tx, ty)) else False
+            ty = ts[k]
+            tie = ir.uf('argsort.tie_before', [vec, ir.const(i), ir.const(k)], 'B')
+            nx, ny = ir._num(tx), ir._num(ty)
+            if nx is not None and ny is not None:
+                before = True if nx < ny else (False if nx > ny else c.branch(tie))
+            elif tx is ty:
+                before = c.branch(tie)
             else:
-                lt = x < y
-            if lt:
+                before = c.branch(ir.or_(ir.lt(tx, ty), ir.and_(ir.eq(tx, ty), tie)))
+            if before:
                 pos = j
                 break
         order.insert(pos, i)
